@@ -17,6 +17,15 @@ RULE = (
     "segmentation and bufsize}, error mode). distinct = blake2b(stream, backend, mode); non-trivial = the stream "
     "holds >= 2 number-carrying frames and >= 1 item of another kind (or a boundary-length frame)"
 )
+RULE += (
+    ' Also: pipe and socket.makefile backends; UBX frames > 4096 bytes with sync-like tails; 4076 two-byte'
+    ' frames; frames with steered checksum bytes (CR LF, sync bytes, zeros ...); raise-mode consumers via'
+    ' read(), next(reader) and one iterator kept across the exceptions; streams that PAUSE once at item'
+    ' boundaries (file double / receive timeout) with the consumer iterating the same reader again; socket'
+    ' backend also over chunked transfer-encoding (plain / gzip / zlib / deflate) with chunk bodies ending'
+    ' at item boundaries; one scripted socket in four is TLS-like (has read()); 40 % of the defined'
+    ' messages laid out from the pinned layouts.'
+)
 ASSUMPTIONS = [
     "NMEA sentences are CRLF-terminated printable ASCII; UBX frames are complete; noise excludes 0xD3/0xB5/0x24",
     "delivered frames whose payload is shorter than 2 bytes (3 for 4076) are ignored: the property does not speak of them",
